@@ -30,41 +30,74 @@ func refParser() parser.Parser {
 	return goldmark.New(goldmark.WithExtensions(extension.GFM)).Parser()
 }
 
-// rawWrap is a goldmark node renderer used only by the override check: it renders an inline raw
-// HTML node inside the wrapper that the replacement raw_html template of the check adds.
-type rawWrap struct{}
+// Sentinels that bracket, in the reference output of the override check, every byte range that
+// the reference renderer copied from raw HTML of the source (inline RawHTML nodes, HTMLBlock lines
+// and closure line). Private-use code points; a source that contains them is not checked.
+const (
+	rawStart = "\uE000"
+	rawEnd   = "\uE001"
+)
 
-func (rawWrap) RegisterFuncs(reg renderer.NodeRendererFuncRegisterer) {
+// capture records goldmark's own node renderer functions so that the bracketing renderer below can
+// delegate to them instead of re-implementing them.
+type capture map[ast.NodeKind]renderer.NodeRendererFunc
+
+func (c capture) Register(k ast.NodeKind, f renderer.NodeRendererFunc) { c[k] = f }
+
+// rawBracket is the node renderer of the override check's reference: raw HTML is rendered by
+// goldmark's own functions, bracketed by the sentinels; with wrap set an inline raw HTML node is
+// additionally put inside the wrapper that the check's replacement raw_html template adds.
+type rawBracket struct {
+	std  capture
+	wrap bool
+}
+
+func (r rawBracket) RegisterFuncs(reg renderer.NodeRendererFuncRegisterer) {
 	reg.Register(ast.KindRawHTML, func(w util.BufWriter, source []byte, node ast.Node, entering bool) (ast.WalkStatus, error) {
 		if !entering {
-			return ast.WalkSkipChildren, nil
+			return r.std[ast.KindRawHTML](w, source, node, entering)
 		}
-		n := node.(*ast.RawHTML)
-		_, _ = w.WriteString(`<span data-ov="raw_html">`)
-		for i := 0; i < n.Segments.Len(); i++ {
-			seg := n.Segments.At(i)
-			_, _ = w.Write(seg.Value(source))
+		if r.wrap {
+			_, _ = w.WriteString(`<span data-ov="raw_html">`)
 		}
-		_, _ = w.WriteString(`</span>`)
-		return ast.WalkSkipChildren, nil
+		_, _ = w.WriteString(rawStart)
+		st, err := r.std[ast.KindRawHTML](w, source, node, entering)
+		_, _ = w.WriteString(rawEnd)
+		if r.wrap {
+			_, _ = w.WriteString(`</span>`)
+		}
+		return st, err
+	})
+	reg.Register(ast.KindHTMLBlock, func(w util.BufWriter, source []byte, node ast.Node, entering bool) (ast.WalkStatus, error) {
+		// goldmark writes the lines when entering and the closure line when leaving
+		_, _ = w.WriteString(rawStart)
+		st, err := r.std[ast.KindHTMLBlock](w, source, node, entering)
+		_, _ = w.WriteString(rawEnd)
+		return st, err
 	})
 }
 
 // refHTML renders src with the reference renderer.
-func refHTML(src []byte, wrapRaw bool) (string, error) {
-	opts := []goldmark.Option{
-		goldmark.WithExtensions(extension.GFM),
-		goldmark.WithRendererOptions(ghtml.WithUnsafe()),
-	}
-	if wrapRaw {
-		opts = append(opts, goldmark.WithRendererOptions(renderer.WithNodeRenderers(util.Prioritized(rawWrap{}, 1))))
-	}
+func refHTML(src []byte) (string, error) {
 	var b bytes.Buffer
-	if err := goldmark.New(opts...).Convert(src, &b); err != nil {
-		return "", err
-	}
-	return b.String(), nil
+	err := goldmark.New(goldmark.WithExtensions(extension.GFM), goldmark.WithRendererOptions(ghtml.WithUnsafe())).Convert(src, &b)
+	return b.String(), err
 }
+
+// refHTMLBracketed is refHTML with the raw HTML ranges bracketed (and inline raw HTML wrapped when
+// wrapRaw is set).
+func refHTMLBracketed(src []byte, wrapRaw bool) (string, error) {
+	std := capture{}
+	ghtml.NewRenderer(ghtml.WithUnsafe()).RegisterFuncs(std)
+	var b bytes.Buffer
+	err := goldmark.New(
+		goldmark.WithExtensions(extension.GFM),
+		goldmark.WithRendererOptions(ghtml.WithUnsafe(), renderer.WithNodeRenderers(util.Prioritized(rawBracket{std: std, wrap: wrapRaw}, 1))),
+	).Convert(src, &b)
+	return b.String(), err
+}
+
+var stripBrackets = strings.NewReplacer(rawStart, "", rawEnd, "")
 
 // ---- normal form -------------------------------------------------------------------------
 
@@ -664,23 +697,43 @@ func tagTemplate(tag string) string {
 
 var startTagRe = regexp.MustCompile(`<(p|h[1-6]|pre|code|em|strong|br|img|ul|ol|li|blockquote|del|table|input|hr|a)((?:\s[^<>]*)?)>`)
 
-// markRef inserts data-ov="<template>" into every start tag of the reference output that the
-// reference renderer wrote for a node whose template is in set. It works on the text of the
-// reference output (goldmark escapes < in text and attribute values, so a start tag in its output is
-// either its own or raw HTML of the source; raw HTML with one of these tag names carries data-raw by
-// generator convention and is left alone). Marking the text rather than the parsed tree keeps the
-// expectation right when the HTML parser restructures odd raw HTML. ok is false when the <a> tags
-// cannot be attributed to link / autolink nodes.
+// markRef inserts data-ov="<template>" into every start tag that the reference renderer itself
+// wrote for a node whose template is in set, and removes the brackets. ref is the bracketed
+// reference output: a start tag inside a bracketed range is raw HTML of the source (whatever its
+// tag name, e.g. the <br> of an HTML block line "<!-- c --> \\<br>") and is left alone; outside the
+// brackets goldmark escapes every < of text and attribute values, so a start tag there is the
+// renderer's own and its tag name identifies the node kind - except <a> (Link or AutoLink, told
+// apart by the AST order aKinds) and the <code> that directly follows the renderer's own <pre>
+// (part of the code block). Marking the text rather than the parsed tree keeps the expectation
+// right when the HTML parser restructures odd raw HTML. ok is false if the <a> tags cannot be
+// attributed (never observed).
 func markRef(ref string, set map[string]bool, aKinds []string) (string, bool) {
 	ai := 0
 	ok := true
 	var sb strings.Builder
 	last := 0
-	for _, m := range startTagRe.FindAllStringSubmatchIndex(ref, -1) {
-		tag, attrs := ref[m[2]:m[3]], ref[m[4]:m[5]]
-		if strings.Contains(attrs, "data-raw") {
-			continue
+	// depth of raw brackets at each match: scan once, in step with the matches
+	pos, depth := 0, 0
+	advance := func(to int) {
+		for pos < to {
+			switch {
+			case strings.HasPrefix(ref[pos:], rawStart):
+				depth++
+				pos += len(rawStart)
+			case strings.HasPrefix(ref[pos:], rawEnd):
+				depth--
+				pos += len(rawEnd)
+			default:
+				pos++
+			}
 		}
+	}
+	for _, m := range startTagRe.FindAllStringSubmatchIndex(ref, -1) {
+		advance(m[0])
+		if depth > 0 {
+			continue // raw HTML of the source
+		}
+		tag := ref[m[2]:m[3]]
 		name := tagTemplate(tag)
 		switch tag {
 		case "a":
@@ -706,5 +759,5 @@ func markRef(ref string, set map[string]bool, aKinds []string) (string, bool) {
 	if ai != len(aKinds) {
 		ok = false
 	}
-	return sb.String(), ok
+	return stripBrackets.Replace(sb.String()), ok
 }
